@@ -14,7 +14,7 @@ from . import lib
 enc, dec = lib.enc, lib.dec
 
 def case_line(case, dump_only=False):
-    view = (1 if case.get('merged', True) else 0) + (2 if dump_only else 0)
+    view = (1 if case.get('merged', True) else 0) + (2 if dump_only else 0) + (4 if case.get('cold') else 0)
     w = [str(view), enc(case['doc']), str(len(case.get('binds', [])))]
     for p, u in case.get('binds', []):
         w += ['~' if p is None else enc(p), enc(u)]
@@ -23,7 +23,7 @@ def case_line(case, dump_only=False):
 
 def parse_out(line):
     """harness / model output line -> dict(D=str|None, A=[str], R=[(value, pos, size)], U=str|None, raw=line)"""
-    o = {'D': None, 'A': [], 'R': [], 'U': None, 'raw': line}
+    o = {'D': None, 'A': [], 'R': [], 'C': [], 'U': None, 'raw': line}
     for sec in line.split(' # '):
         if sec.startswith('D '):
             o['D'] = sec
@@ -32,6 +32,8 @@ def parse_out(line):
         elif sec.startswith('R '):
             m = re.match(r'^R (\S*) P(\d+),(\d+)$', sec)
             o['R'].append((m.group(1), int(m.group(2)), int(m.group(3))) if m else (sec, -1, -1))
+        elif sec.startswith('C '):
+            o['C'].append(sec[2:])
         elif sec.startswith('U '):
             o['U'] = sec[2:]
         elif sec.startswith('I '):
@@ -171,11 +173,16 @@ def gen_doc(rng, feat=None):
                 e.children.append(el(d - 1))
             else:
                 e.children.append(leaf())
+        # structurally identical siblings (node identity must never be decided by content)
+        if e.children and rng.random() < 0.3:
+            e.children.insert(rng.randint(0, len(e.children)), rng.choice(e.children))
         return e
     root = el(depth)
     # guarantee depth >= 3 and repeated names
     if not any(isinstance(c, El) and any(isinstance(g, El) for g in c.children) for c in root.children):
         root.children.append(El(rng.choice(NAMES), [('x', '1')], [], [El(rng.choice(NAMES), [], [], [('text', '5')]), ('text', 'z')]))
+    if f.get('dflt'):
+        root.nsdecl = [(q, u) for q, u in root.nsdecl if q is not None] + [(None, 'urn:d')]
     if f['ns']:
         for p, u in NSURI.items():          # every prefix used is declared at the root
             if not any(q == p for q, _ in root.nsdecl):
@@ -981,6 +988,8 @@ KIND_DOCS = [
     '<!--pro--><r xmlns="urn:d"><a><b><c>deep</c></b></a><a/><a>2</a></r><!--epi-->',
     '<r><?pa v?><a/><b/></r>',
     '<?pp v?><r><a/><?pa?><b/><?pb x?><c/></r>',
+    '<r><a/><b>x</b><a/><b>y</b><a/><!--c--><!--c-->t<a/>t</r>',
+    '<ul><li>x</li><li>y</li><li>x</li><li><i/></li><li><i/></li></ul>',
 ]
 CONTEXT_SELECTORS = ['/', '/*', '//*', '//node()', '//@*', '//namespace::*', '//text()', '//comment()', '//processing-instruction()',
                      '//@*/node()', '/node()', '//*[last()]', '/descendant::node()[1]']
@@ -1015,6 +1024,33 @@ def totality_cases(rng, n_random, quick=True):
             if s.count('(') <= 5:
                 ex.append(s)
         out.append(({'doc': doc, 'exprs': ex or ['a'], 'merged': True, 'binds': [('p', 'urn:p')]}, 'garbage'))
+    # (e) the function library on hostile scalar arguments (out-of-range, negative, NaN, infinite, huge)
+    STRS = ["''", "'a'", "'12345'", "'\u00e9\u00e9\u00e9'", "'\U0001F600x'", "string(/*)"]
+    NUMS = ['0', '1', '2', '3', '-1', '-100', '1.5', '-0.5', '(0 div 0)', '(1 div 0)', '(-1 div 0)', '1000000000000', '4']
+    fam = []
+    for st in STRS:
+        for n1 in NUMS:
+            fam.append('substring(%s, %s)' % (st, n1))
+            for n2 in NUMS:
+                fam.append('substring(%s, %s, %s)' % (st, n1, n2))
+    for n1 in NUMS:
+        for fn in ('round', 'floor', 'ceiling', 'string', 'boolean', 'number'):
+            fam.append('%s(%s)' % (fn, n1))
+        fam.append('(//node())[%s]' % n1)
+        fam.append('//*[position() = %s]' % n1)
+        fam.append('string-length(substring("abc", %s))' % n1)
+    for st in STRS:
+        for fn in ('string-length', 'normalize-space', 'number', 'boolean'):
+            fam.append('%s(%s)' % (fn, st))
+        for st2 in STRS[:4]:
+            fam.append('translate(%s, %s, %s)' % (st, st2, STRS[1]))
+            for fn in ('contains', 'starts-with', 'substring-before', 'substring-after', 'concat'):
+                fam.append('%s(%s, %s)' % (fn, st, st2))
+    step = 16 if not quick else 16
+    if quick:
+        rng.shuffle(fam); fam = fam[:480]
+    for i in range(0, len(fam), step):
+        out.append(({'doc': KIND_DOCS[0], 'exprs': fam[i:i + step], 'merged': True, 'binds': []}, 'hostile-arguments'))
     # (d) generated expressions with injected failures, substring() included
     g = Gen(rng, {'substring': 0.3, 'unsupported': 1.0, 'ns_axis': 0.1})
     docs = []
